@@ -281,6 +281,68 @@ end
 
 end
 
+/-! ### R1 on its own: the reference occurrences with their lexical environments
+
+  `occsCmd env c` lists every reference `$k` of the subtree together with the environment at
+  that point.  (`OkCmd` implies that each of them is bound: `Lemmas.Check.ok_occs_bound`.) -/
+
+/-- a reference occurrence: the environment at the reference, and its key -/
+abbrev Occ := Env × Bytes
+
+def occsKeys (env : Env) (ks : List Bytes) : List Occ := ks.map fun k => (env, k)
+
+mutual
+  def occsCmd (env : Env) : Cmd → List Occ
+    | .print _ a dirs => occsKeys env (exprKeys a ++ dirsKeys dirs)
+    | .msg _ _ _ _ _ body => occsParts env body
+    | .css _ e _ => occsKeys env (optKeys e)
+    | .log _ b => occsBlock env b
+    | .ifc _ conds => occsConds env conds
+    | .forc _ v l b ie =>
+      occsKeys env (exprKeys l)
+        ++ (occsBlock (env ++ [{ name := v, isLet := false }]) b
+        ++ (match ie with
+            | some b' => occsBlock env b'
+            | none => []))
+    | .switch _ v cases => occsKeys env (exprKeys v) ++ occsCases env cases
+    | .call _ _ _ d ps => occsKeys env (optKeys d) ++ occsParams env ps
+    | .letValue _ _ e => occsKeys env (exprKeys e)
+    | .letContent _ _ b => occsBlock env b
+    | .template _ _ b _ _ => occsBlock env b
+    | _ => []
+  def occsBlock (env : Env) : Block → List Occ
+    | .mk _ cmds => occsCmds env cmds
+  def occsCmds (env : Env) : CmdList → List Occ
+    | .nil => []
+    | .cons c r => occsCmd env c ++ occsCmds (env ++ decl c) r
+  def occsConds (env : Env) : CondList → List Occ
+    | .nil => []
+    | .cons _ c b r => (occsKeys env (optKeys c) ++ occsBlock env b) ++ occsConds env r
+  def occsCases (env : Env) : CaseList → List Occ
+    | .nil => []
+    | .cons _ vs b r => (occsBlock env b ++ occsKeys env (listKeys vs)) ++ occsCases env r
+  def occsParams (env : Env) : ParamList → List Occ
+    | .nil => []
+    | .value _ _ e r => occsKeys env (exprKeys e) ++ occsParams env r
+    | .content _ _ b r => occsBlock env b ++ occsParams env r
+  def occsParts (env : Env) : MsgParts → List Occ
+    | .nil => []
+    | .text _ _ r => occsParts env r
+    | .ph _ _ body r =>
+      (match body with
+       | .htmlTag .. => []
+       | .cmd c => occsCmd env c) ++ occsParts env r
+    | .plural _ _ v cases _ d r =>
+      (occsKeys env (exprKeys v) ++ (occsPlCases env cases ++ occsParts env d)) ++ occsParts env r
+  def occsPlCases (env : Env) : PluralCases → List Occ
+    | .nil => []
+    | .cons _ _ _ b r => occsParts env b ++ occsPlCases env r
+end
+
+/-- R1 for a template: every reference occurrence of the body is bound -/
+def AllRefsBound (t : Check.Template) : Prop :=
+  ∀ o ∈ occsBlock [] t.body, RefBound (t.params.map (·.name)) o.1 o.2
+
 /-- R2: the param is the target of a free reference occurrence of the body (or is passed on by `data="all"`) -/
 def ParamUsed (reg : List Check.Template) (params : List Bytes) (body : Block) (p : Bytes) : Prop :=
   Target.param p ∈ refsBlock reg params [] body
